@@ -35,3 +35,10 @@ Definition shipped_ok (s : shipped_graph) : bool :=
   && forallb (is_indep_ind (sg_graph s)) (sg_ind_latents s)
   && forallb (is_total_of (sg_graph s)) (sg_totals s)
   && negb (Nat.eqb (List.length (sg_ind_terms s)) 0) && negb (Nat.eqb (List.length (sg_totals s)) 0).
+
+(** the nodes [IndividualGibbsSampler.sample] reads (names regenerated from the source, resolved in each shipped graph for
+    each of its individual latent variables): all of them carry the individual axis and are not aggregates *)
+Definition sample_reads_local (ss : list shipped_graph) (rs : list (list nat)) : bool :=
+  Nat.eqb (List.length ss) (List.length rs)
+  && forallb (fun p => forallb (level_is (sg_graph (fst p)) LInd) (snd p) && negb (Nat.eqb (List.length (snd p)) 0))
+             (combine ss rs).
